@@ -309,12 +309,16 @@ def _with_dtype(draw, kw, a):
     return kw
 
 
-def _with_where(draw, kw, a, og):
+def _with_where(draw, kw, a, og, with_initial=False):
     """Sometimes a reduction mask (numeric operands only: numpy itself is the reference there)."""
-    if getattr(og, "mode", "") == "const" and draw(st.integers(0, 4)) == 0:
+    const = getattr(og, "mode", "") == "const"
+    if draw(st.integers(0, 4)) == 0 and (const or with_initial):
         shp = gen.broadcast_member(draw, tuple(a["shape"]))
         size = gen.size_of(shp)
         kw["where"] = NP(draw(st.lists(st.booleans(), min_size=size, max_size=size)), "bool", shape=shp)
+        if not const:
+            # (numpy needs a start value to mask a fold over objects: the exact model is such a fold)
+            kw.setdefault("initial", draw(st.sampled_from([1, 2, -3])))
     return kw
 
 
@@ -419,13 +423,13 @@ def _with_initial(draw, kw):
 @recipe("sum", "reduction", method="sum", reduce="add")
 def _sum(draw, og):
     a = og.array(draw, min_ndim=1)
-    return {"args": [P(a)], "kw": _with_where(draw, _with_initial(draw, _with_dtype(draw, _reduce_kw(draw, a), a)), a, og)}
+    return {"args": [P(a)], "kw": _with_where(draw, _with_initial(draw, _with_dtype(draw, _reduce_kw(draw, a), a)), a, og, True)}
 
 
 @recipe("prod", "reduction", method="prod", reduce="multiply", cost=3)
 def _prod(draw, og):
     a = og.array(draw, min_ndim=1)
-    return {"args": [P(a)], "kw": _with_where(draw, _with_initial(draw, _with_dtype(draw, _reduce_kw(draw, a), a)), a, og)}
+    return {"args": [P(a)], "kw": _with_where(draw, _with_initial(draw, _with_dtype(draw, _reduce_kw(draw, a), a)), a, og, True)}
 
 
 @recipe("mean", "reduction", method="mean")
@@ -439,9 +443,11 @@ def _mean(draw, og):
 
 @recipe("cumsum", "reduction", method="cumsum", accumulate="add")
 def _cumsum(draw, og):
-    a = og.array(draw, min_ndim=1)
+    a = og.array(draw, min_ndim=2 if draw(st.integers(0, 2)) == 0 else 1)
     kw = {}
     ax = axis_of(draw, ndim_of(a))
+    if ndim_of(a) >= 2 and draw(st.integers(0, 2)) == 0:
+        ax = 0  # the axis the ufunc spelling numpy.add.accumulate(a) uses when none is given
     if ax is not None or draw(st.booleans()):
         kw["axis"] = ax
     return {"args": [P(a)], "kw": kw}
@@ -956,7 +962,7 @@ def spellings_of(rec, args, kw):
     # ufunc.reduce/accumulate default to axis=0 while sum/cumsum default to axis=None by
     # definition, so these spellings need the axis spelled out (an int, a tuple or an explicit None for
     # reduce; an int for accumulate), and the axis-omitted ufunc spelling corresponds to axis=0
-    if rec.reduce and first_poly and set(kw) <= {"axis", "keepdims", "dtype", "initial"} and "axis" in kw:
+    if rec.reduce and first_poly and set(kw) <= {"axis", "keepdims", "dtype", "initial", "where"} and "axis" in kw:
         out.append("reduce")
         if isinstance(kw["axis"], int) and not isinstance(kw["axis"], bool) and kw["axis"] == 0:
             out.append("reduce-default")
